@@ -258,6 +258,18 @@ func (e *Engine) evalGhostCall(c *FnCtx, env *Env, x *ECall) (Val, bool) {
 		}
 		fn := c.eng.funcByKey[env.specPkg+"."+name]
 		if fn == nil {
+			// a method's closure, named without its receiver (changeFn$1 for (WriteRequest).changeFn$1), when that is unambiguous
+			var keys []string
+			for k, f := range c.eng.funcByKey {
+				if strings.HasPrefix(k, env.specPkg+".") && f.Name() == name {
+					keys = append(keys, k)
+				}
+			}
+			if len(keys) == 1 {
+				fn = c.eng.funcByKey[keys[0]]
+			}
+		}
+		if fn == nil {
 			panic(specError("isfunc: unknown function " + name))
 		}
 		return Val{T: tBool, E: fmt.Sprintf("(= %s %d)", c.cloFn(v.E), c.eng.fnID(fn))}, true
